@@ -54,7 +54,10 @@ pub fn secrets() -> Vec<String> {
 
 enum Issuer { Value(JWT<Value>), Claims(JWT<Claims>) }
 
-pub struct Cfg { secret: String, alg: Alg, typed: bool, router: VerifRouter, issuer: Issuer }
+pub struct Cfg { secret: String, alg: Alg, typed: bool, router: VerifRouter, issuer: Issuer,
+    /// the Authorization value admitted last by this configuration (enters every witness: a violation that needs the earlier
+    /// request is replayed with it)
+    last_admitted: std::cell::RefCell<Option<String>> }
 
 fn new_jwt<P>(alg: Alg, secret: &str) -> JWT<P> {
     match alg { Alg::HS256 => JWT::new_256(secret.to_string()), Alg::HS384 => JWT::new_384(secret.to_string()), Alg::HS512 => JWT::new_512(secret.to_string()) }
@@ -65,11 +68,11 @@ fn build(secret: &str, alg: Alg, typed: bool) -> Result<Cfg, String> {
         if typed {
             let jwt = new_jwt::<Claims>(alg, secret);
             let router = VerifRouter::from(Ohkami::new((jwt.clone(), "/".GET(echo_claims).POST(echo_claims))));
-            Cfg { secret: secret.to_string(), alg, typed, router, issuer: Issuer::Claims(jwt) }
+            Cfg { secret: secret.to_string(), alg, typed, router, issuer: Issuer::Claims(jwt), last_admitted: Default::default() }
         } else {
             let jwt = new_jwt::<Value>(alg, secret);
             let router = VerifRouter::from(Ohkami::new((jwt.clone(), "/".GET(echo_value).POST(echo_value))));
-            Cfg { secret: secret.to_string(), alg, typed, router, issuer: Issuer::Value(jwt) }
+            Cfg { secret: secret.to_string(), alg, typed, router, issuer: Issuer::Value(jwt), last_admitted: Default::default() }
         }
     })
 }
@@ -140,6 +143,9 @@ fn run_case(ctx: &mut Ctx, cfg: &Cfg, c: &Case) {
     let out = app::oneshot(&cfg.router, &raw);
     let ran = RUNS.load(Ordering::SeqCst) != before;
     ctx.distinct_key(&(&cfg.secret, cfg.alg, cfg.typed, c.now, c.method, c.auth, c.extra));
+    let prior = cfg.last_admitted.borrow().clone();
+    // only a request the reference admits too: a chain of wrongly admitted requests would not replay from its last link
+    if ran && v.expect == Expect::Accept { *cfg.last_admitted.borrow_mut() = c.auth.map(|a| a.to_string()) }
 
     // feature of the class id: the edit label; for unedited tokens what the reference found in the claims
     let feature = if c.label == "issued" || c.label.starts_with("crafted") {
@@ -155,7 +161,7 @@ fn run_case(ctx: &mut Ctx, cfg: &Cfg, c: &Case) {
 
     let witness = |observed: String| {
         let w = json!({"secret": esc(cfg.secret.as_bytes()), "alg": cfg.alg.name(), "typed": cfg.typed, "now": c.now, "method": c.method,
-                       "authorization": c.auth, "extra_header": c.extra.map(|(k, v)| json!([k, v])), "label": c.label,
+                       "authorization": c.auth, "extra_header": c.extra.map(|(k, v)| json!([k, v])), "label": c.label, "prior_admitted_authorization": prior.clone(),
                        "expected": expected_text(&v, c.method), "observed": observed});
         move || w
     };
@@ -600,6 +606,7 @@ pub fn run(ctx: &mut Ctx) {
             return
         }
     }
+    compositions(ctx);
     let secrets = secrets();
     let mut routers = Routers { cache: (0..secrets.len() * 3 * 2).map(|_| None).collect(), secrets: secrets.clone() };
     let (mut n_units, mut n_tokens_mutated, mut n_issued) = (0u64, 0u64, 0u64);
@@ -726,6 +733,7 @@ fn finish(ctx: &mut Ctx, quick: bool, n_units: u64, n_mut: u64, n_issued: u64) {
 }
 
 pub fn replay(ctx: &mut Ctx, case: &Value) {
+    if case.get("composition").is_some() { return replay_composition(ctx, case) }
     let secret = String::from_utf8(unesc(case["secret"].as_str().expect("secret"))).expect("secret is UTF-8");
     let alg = Alg::from_name(case["alg"].as_str().expect("alg")).expect("known alg");
     let typed = case["typed"].as_bool().unwrap_or(false);
@@ -741,9 +749,216 @@ pub fn replay(ctx: &mut Ctx, case: &Value) {
         check_issue(ctx, &cfg, now, payload, &issued);
         return
     }
+    if let Some(prior) = case["prior_admitted_authorization"].as_str() {
+        // the request admitted last before the witness (same configuration): sent first, not judged here
+        ohkami::__verif__::set_clock(Some(now));
+        let raw = app::request("GET", "/", &[("Host", "h"), ("Authorization", prior)], b"");
+        let _ = app::oneshot(&cfg.router, &raw);
+    }
     let extra: Option<(String, String)> = case["extra_header"].as_array().map(|a| (a[0].as_str().unwrap_or("").to_string(), a[1].as_str().unwrap_or("").to_string()));
     run_case(ctx, &cfg, &Case {
         now, method: case["method"].as_str().unwrap_or("GET"), auth: case["authorization"].as_str(),
         extra: extra.as_ref().map(|(k, v)| (k.as_str(), v.as_str())), label: case["label"].as_str().unwrap_or("replay"),
     });
+}
+
+/* ------------------------------------------------------------ compositions (fourth round) ------------------ */
+// More than one fang (or more than one instance of the JWT fang) on the way to a handler, all sharing the payload type
+// `serde_json::Value`, and short histories over them.  Every gate on a path is a JWT fang of its own (secret, token
+// source); the statement applies to each: the handler runs iff *every* gate in front of it admits the token presented to
+// it, and then sees the payload the innermost gate verified.  Nothing a request leaves behind - in the request context
+// (an outer fang's payload, a preset value of the same type) or in the process (anything remembered from an earlier
+// request, by this instance or by another) - may change that.
+
+use ohkami::fang::Context as CtxFang;
+
+#[derive(Clone)]
+struct Gate { secret: &'static str, outer_header: bool }
+
+struct Composition { kind: &'static str, alg: Alg, router: VerifRouter, paths: Vec<(&'static str, Vec<Gate>)>, secrets: Vec<&'static str>,
+    /// the request admitted last (rightly) on this composition in this process: the context of every witness
+    last_legit: std::cell::RefCell<Option<CompReq>> }
+
+fn outer_token(req: &ohkami::Request) -> Option<&str> { req.headers.get("X-Outer-Token") }
+
+fn comp_jwt(alg: Alg, g: &Gate) -> JWT<Value> {
+    let j = new_jwt::<Value>(alg, g.secret);
+    if g.outer_header { j.get_token_by(outer_token, ohkami::openapi::SecurityScheme::APIKey("outer", ohkami::openapi::security::APIKey::header("X-Outer-Token"))) } else { j }
+}
+
+const COMP_KINDS: [&str; 5] = ["context-before-jwt", "outer-and-inner", "siblings", "same-fang-parent-and-child", "siblings-prefix-secrets"];
+
+fn build_composition(kind: &'static str, alg: Alg) -> Result<Composition, String> {
+    guarded(|| {
+        let g = |secret: &'static str, outer_header: bool| Gate { secret, outer_header };
+        match kind {
+            "context-before-jwt" => {
+                let a = g("secret", false);
+                let router = VerifRouter::from(Ohkami::new((CtxFang::new(json!({"preset": true})), comp_jwt(alg, &a), "/".GET(echo_value))));
+                Composition { kind, alg, router, paths: vec![("/", vec![a])], secrets: vec!["secret", "x-other"], last_legit: Default::default() }
+            }
+            "outer-and-inner" => {
+                let (o, i) = (g("outer-secret", true), g("secret", false));
+                let router = VerifRouter::from(Ohkami::new((comp_jwt(alg, &o), "/".GET(echo_value),
+                    "/in".By(Ohkami::new((comp_jwt(alg, &i), "/".GET(echo_value)))))));
+                Composition { kind, alg, router, paths: vec![("/", vec![o.clone()]), ("/in", vec![o, i])], secrets: vec!["outer-secret", "secret"], last_legit: Default::default() }
+            }
+            "siblings" | "siblings-prefix-secrets" => {
+                let (sa, sb) = if kind == "siblings" { ("secret", "x-other") } else { ("s", "secret") };
+                let (a, b) = (g(sa, false), g(sb, false));
+                let router = VerifRouter::from(Ohkami::new((
+                    "/a".By(Ohkami::new((comp_jwt(alg, &a), "/".GET(echo_value)))),
+                    "/b".By(Ohkami::new((comp_jwt(alg, &b), "/".GET(echo_value)))))));
+                Composition { kind, alg, router, paths: vec![("/a", vec![a]), ("/b", vec![b])], secrets: vec![sa, sb], last_legit: Default::default() }
+            }
+            "same-fang-parent-and-child" => {
+                let a = g("secret", false);
+                let jwt = comp_jwt(alg, &a);
+                let router = VerifRouter::from(Ohkami::new((jwt.clone(), "/".GET(echo_value), "/in".By(Ohkami::new((jwt, "/".GET(echo_value)))))));
+                Composition { kind, alg, router, paths: vec![("/", vec![a.clone()]), ("/in", vec![a.clone(), a])], secrets: vec!["secret", "x-other"], last_legit: Default::default() }
+            }
+            _ => unreachable!(),
+        }
+    })
+}
+
+/// token menu of a composition: per secret a valid token with its own payload; cross-forged tokens (head and payload of one,
+/// signature of the other - what a cache keyed by part of the token would confuse); a non-token; absent
+fn comp_tokens(c: &Composition) -> Vec<(String, Option<String>)> {
+    let hdr = c.alg.issued_header();
+    let valid: Vec<String> = c.secrets.iter().map(|s| rj::craft(c.alg, s.as_bytes(), hdr.as_bytes(), format!(r#"{{"sub":"signed-with-{}"}}"#, s).as_bytes())).collect();
+    let mut out: Vec<(String, Option<String>)> = vec![("absent".into(), None)];
+    for (i, s) in c.secrets.iter().enumerate() { out.push((format!("valid:{s}"), Some(valid[i].clone()))) }
+    for i in 0..valid.len() { for j in 0..valid.len() { if i != j {
+        let (hp, _) = valid[i].rsplit_once('.').unwrap();
+        let (_, sig) = valid[j].rsplit_once('.').unwrap();
+        out.push((format!("forged:body-of-{}+signature-of-{}", c.secrets[i], c.secrets[j]), Some(format!("{hp}.{sig}"))));
+    } } }
+    // the admin payload under the signature of the first valid token (same head): what a signature-keyed memo admits
+    let forged_payload = format!("{}.{}.{}", b64::url_encode(hdr.as_bytes()), b64::url_encode(br#"{"sub":"root","admin":true}"#), valid[0].rsplit_once('.').unwrap().1);
+    out.push(("forged:other-payload+signature-of-first".into(), Some(forged_payload)));
+    out.push(("garbage".into(), Some("not.a.token".into())));
+    out
+}
+
+#[derive(Clone)]
+struct CompReq { path: &'static str, bearer: usize, outer: usize }
+
+fn comp_requests(c: &Composition, menu: &[(String, Option<String>)]) -> Vec<CompReq> {
+    let uses_outer = c.paths.iter().any(|(_, gs)| gs.iter().any(|g| g.outer_header));
+    let mut v = vec![];
+    for (p, _) in &c.paths { for b in 0..menu.len() { for o in 0..(if uses_outer { menu.len() } else { 1 }) { v.push(CompReq { path: p, bearer: b, outer: o }) } } }
+    v
+}
+
+/// runs one history on the composition; every step is judged on its own (the expectation never depends on the history)
+fn run_comp_history(ctx: &mut Ctx, c: &Composition, menu: &[(String, Option<String>)], hist: &[CompReq]) {
+    let now = app::CLOCK;
+    ohkami::__verif__::set_clock(Some(now));
+    let mut trace: Vec<Value> = vec![];
+    let context: Option<CompReq> = c.last_legit.borrow().clone();
+    for (k, r) in hist.iter().enumerate() {
+        let gates = &c.paths.iter().find(|(p, _)| *p == r.path).unwrap().1;
+        let bearer = menu[r.bearer].1.as_ref().map(|t| format!("Bearer {t}"));
+        let outer = menu[r.outer].1.clone();
+        let mut headers: Vec<(&str, &str)> = vec![("Host", "h")];
+        if let Some(b) = &bearer { headers.push(("Authorization", b)) }
+        if let Some(o) = &outer { headers.push(("X-Outer-Token", o)) }
+        let raw = app::request("GET", r.path, &headers, b"");
+        // reference: every gate judges the token of its own source
+        let mut admit = true; let mut innermost: Option<Json> = None;
+        for g in gates {
+            let tok = if g.outer_header { outer.as_deref() } else { menu[r.bearer].1.as_deref() };
+            let v = match tok { Some(t) => rj::judge_token(g.secret.as_bytes(), c.alg, now, t), None => rj::judge_authorization(g.secret.as_bytes(), c.alg, now, None) };
+            if v.expect != Expect::Accept { admit = false; break }
+            innermost = v.payload;
+        }
+        let before = RUNS.load(Ordering::SeqCst);
+        let out = app::oneshot(&c.router, &raw);
+        let ran = RUNS.load(Ordering::SeqCst) != before;
+        ctx.transitions += 1;
+        let step = json!({"path": r.path, "bearer": menu[r.bearer].0, "outer": if gates.iter().any(|g| g.outer_header) { json!(menu[r.outer].0) } else { Value::Null }});
+        trace.push(step);
+        let last = k + 1 == hist.len();
+        let feature = format!("{}{}", if hist.len() > 1 { format!("after:{}>", menu[hist[0].bearer].0.split(':').next().unwrap_or("")) } else { String::new() },
+                              menu[r.bearer].0.split(':').next().unwrap_or(""));
+        let class = |symptom: &str| format!("C12/{}/composition:{}/{}/{}", c.alg.name(), c.kind, feature, symptom);
+        let witness = |observed: String, expected: String| {
+            let w = json!({"composition": c.kind, "alg": c.alg.name(), "history": hist.iter().map(|h| json!([h.path, h.bearer, h.outer])).collect::<Vec<_>>(),
+                           "context_last_rightly_admitted": context.as_ref().map(|h| json!([h.path, h.bearer, h.outer])),
+                           "history_readable": trace.clone(), "step": k, "expected": expected, "observed": observed});
+            move || w
+        };
+        let Some(p) = out.parsed() else {
+            ctx.violation(&class(&format!("no-response:{}", out.kind().split(':').next().unwrap_or(""))), true, witness(out.kind(), "a response".into()));
+            return
+        };
+        let body = String::from_utf8_lossy(&p.body).to_string();
+        let observed = format!("status {} ran={} body={:?}", p.status, ran, body);
+        if admit {
+            let echo_ok = body.strip_prefix("ran:").and_then(|t| rj::parse_json(t.as_bytes()).ok()).zip(innermost.as_ref()).is_some_and(|(seen, signed)| rj::json_eq(&seen, signed));
+            if !ran { ctx.violation(&class(&format!("refused-should-accept:{}", p.status)), true, witness(observed, "every gate admits its token: handler runs".into())); return }
+            if !echo_ok { ctx.violation(&class("wrong-payload"), true, witness(observed, "handler echoes the payload verified by the innermost gate".into())); return }
+            *c.last_legit.borrow_mut() = Some(r.clone());
+            if last { ctx.pass("composition:accepted", true, hist.len() > 1) }
+        } else {
+            if ran { ctx.violation(&class("accepted-should-refuse"), true, witness(observed, "a gate refuses its token: handler does not run".into())); return }
+            if p.status < 400 { ctx.violation(&class(&format!("refused-without-error-status:{}", p.status)), true, witness(observed, "error status".into())); return }
+            if last { ctx.pass(&format!("composition:refused:{}", p.status), true, hist.len() > 1) }
+        }
+    }
+    ctx.distinct_key(&(c.kind, c.alg, hist.iter().map(|h| (h.path, h.bearer, h.outer)).collect::<Vec<_>>()));
+    ctx.states += 1;
+}
+
+pub fn compositions(ctx: &mut Ctx) {
+    let quick = ctx.quick();
+    let algs: &[Alg] = if quick { &[Alg::HS256] } else { &ALGS };
+    let mut n_hist = 0u64;
+    for kind in COMP_KINDS { for &alg in algs {
+        if !ctx.mine() { continue }
+        let c = match build_composition(kind, alg) {
+            Ok(c) => c,
+            Err(p) => { ctx.violation(&format!("C12/{}/composition:{}/build/panic:{}", alg.name(), kind, panic_kind(&p)), true, || json!({"composition": kind, "alg": alg.name(), "build_only": true, "observed": p})); continue }
+        };
+        let menu = comp_tokens(&c);
+        let reqs = comp_requests(&c, &menu);
+        for a in &reqs { run_comp_history(ctx, &c, &menu, std::slice::from_ref(a)); n_hist += 1 }
+        // histories of two: every ordered pair (thorough) / every pair whose first request carries a valid or forged bearer (quick)
+        for a in &reqs {
+            if ctx.out_of_time() { return }
+            if quick && (menu[a.bearer].0 == "absent" || menu[a.bearer].0 == "garbage") && a.outer <= 1 { continue }
+            for b in &reqs { run_comp_history(ctx, &c, &menu, &[a.clone(), b.clone()]); n_hist += 1 }
+        }
+        // histories of three on the two smallest request sets (thorough): a, b, a-again and a, b, c over bearer-only compositions
+        if !quick && reqs.len() <= 20 {
+            for a in &reqs { for b in &reqs { for d in &reqs { if ctx.out_of_time() { return } run_comp_history(ctx, &c, &menu, &[a.clone(), b.clone(), d.clone()]); n_hist += 1 } } }
+        }
+    } }
+    ctx.extra.insert("sum_composition_histories".into(), json!(n_hist));
+    ctx.extra.insert("compositions".into(), json!({"kinds": COMP_KINDS, "token_menu": "absent, one valid token per secret, cross-forged tokens (body of one + signature of another), another payload under a valid signature, a non-token",
+        "histories": if quick { "all single requests, all ordered pairs whose first request carries a token" } else { "all single requests, all ordered pairs, all triples on compositions with <= 20 requests" }}));
+}
+
+pub fn replay_composition(ctx: &mut Ctx, case: &Value) {
+    let kind = COMP_KINDS.iter().copied().find(|k| Some(*k) == case["composition"].as_str()).expect("known composition");
+    let alg = Alg::from_name(case["alg"].as_str().expect("alg")).expect("known alg");
+    let c = match build_composition(kind, alg) {
+        Ok(c) => c,
+        Err(p) => { ctx.violation(&format!("C12/{}/composition:{}/build/panic:{}", alg.name(), kind, panic_kind(&p)), true, || json!({"composition": kind, "alg": alg.name(), "build_only": true, "observed": p})); return }
+    };
+    if case["build_only"] == true { ctx.pass("build-ok", true, true); return }
+    let menu = comp_tokens(&c);
+    let req_of = |h: &Value| {
+        let path = c.paths.iter().map(|(p, _)| *p).find(|p| Some(*p) == h[0].as_str()).expect("known path");
+        CompReq { path, bearer: h[1].as_u64().unwrap() as usize, outer: h[2].as_u64().unwrap() as usize }
+    };
+    let hist: Vec<CompReq> = case["history"].as_array().expect("history").iter().map(req_of).collect();
+    if case["context_last_rightly_admitted"].is_array() {
+        // the request admitted last before the witness's history: run first (it is judged too, it must pass)
+        let before = (ctx.evaluations, ctx.violations.len());
+        run_comp_history(ctx, &c, &menu, &[req_of(&case["context_last_rightly_admitted"])]);
+        if ctx.violations.len() != before.1 { return }
+    }
+    run_comp_history(ctx, &c, &menu, &hist);
 }
